@@ -66,8 +66,14 @@ func (w *world) parseCheck(h *recHandler, msg *service.Message) {
 		return
 	}
 	w.parseCalls++
+	// Results are rendered canonically right after each Parse, before any String() call: rendering a value as
+	// text may legitimately normalise the receiver (P9208AlarmSign.encode fills in a missing reserve), and that
+	// must not be mistaken for a difference between the parses.
 	liveErr := h.rx.Parse(msg.JTMessage)
-	liveStr := stringOf(h.rx, liveErr)
+	liveC := ""
+	if liveErr == nil {
+		liveC = canon(reflect.ValueOf(h.rx))
+	}
 
 	hc := *msg.JTMessage.Header
 	exactBody := make([]byte, len(msg.JTMessage.Body))
@@ -76,36 +82,50 @@ func (w *world) parseCheck(h *recHandler, msg *service.Message) {
 
 	fe := h.mk()
 	feErr := fe.Parse(exact)
-	feStr := stringOf(fe, feErr)
+	feC := ""
+	if feErr == nil {
+		feC = canon(reflect.ValueOf(fe))
+	}
 
 	hc2 := *msg.JTMessage.Header
 	fl := h.mk()
 	flErr := fl.Parse(&jt808.JTMessage{Header: &hc2, Body: msg.JTMessage.Body, VerifyCode: msg.JTMessage.VerifyCode})
+	flC := ""
+	if flErr == nil {
+		flC = canon(reflect.ValueOf(fl))
+	}
+
+	// totality of rendering (a panic here is recorded by the goroutine wrapper as a decoder panic)
+	_ = stringOf(h.rx, liveErr)
+	_ = stringOf(fe, feErr)
 
 	id := msg.JTMessage.Header.ID
-	same := func(e1, e2 error, a, b any) bool {
+	same := func(e1, e2 error, a, b string) bool {
 		if (e1 == nil) != (e2 == nil) {
 			return false
 		}
-		if e1 != nil {
-			return true // both failed: outcome is "error"
-		}
-		return canon(reflect.ValueOf(a)) == canon(reflect.ValueOf(b))
+		return e1 != nil || a == b // both failed: the outcome is "error"
 	}
-	if !same(flErr, feErr, fl, fe) {
+	if !same(flErr, feErr, flC, feC) {
+		if os.Getenv("VERIF_DEBUG") != "" {
+			fmt.Fprintf(os.Stderr, "C03 DEBUG beyond_slice id=%#04x dialect=%d body=%x\n flErr=%v feErr=%v\n live =%s\n exact=%s\n", id, w.plan.Svc.Dialect, exactBody, flErr, feErr, flC, feC)
+		}
 		w.parseViol = append(w.parseViol, Violation{Prop: "C03", Rule: "C03.beyond_slice",
 			Sig:  fmt.Sprintf("C03.beyond_slice:%#04x", id),
 			Msg:  fmt.Sprintf("parsing body of %#04x (%d bytes) gives a different outcome when the same bytes sit in a buffer with other data behind them", id, len(exactBody)),
 			Step: simrt.Step()})
 		return
 	}
-	if !same(liveErr, flErr, h.rx, fl) {
+	if !same(liveErr, flErr, liveC, flC) {
 		if os.Getenv("VERIF_DEBUG") != "" {
-			fmt.Fprintf(os.Stderr, "C03 DEBUG id=%#04x liveErr=%v flErr=%v\n live=%s\n fresh=%s\n", id, liveErr, flErr, canon(reflect.ValueOf(h.rx)), canon(reflect.ValueOf(fl)))
+			fmt.Fprintf(os.Stderr, "C03 DEBUG id=%#04x liveErr=%v flErr=%v\n live=%s\n fresh=%s\n", id, liveErr, flErr, liveC, flC)
 		}
 		field := "error"
 		if liveErr == nil && flErr == nil {
-			field = firstDiff(reflect.ValueOf(h.rx), reflect.ValueOf(fl), 0)
+			// re-parse into two fresh receivers is not possible for the live one; name the field from a re-parse pair
+			fr := h.mk()
+			_ = fr.Parse(&jt808.JTMessage{Header: &hc2, Body: msg.JTMessage.Body, VerifyCode: msg.JTMessage.VerifyCode})
+			field = firstDiff(reflect.ValueOf(h.rx), reflect.ValueOf(fr), 0)
 		}
 		w.parseViol = append(w.parseViol, Violation{Prop: "C03", Rule: "C03.receiver_history",
 			Sig:  fmt.Sprintf("C03.receiver_history:%#04x:%s", id, field),
@@ -113,8 +133,6 @@ func (w *world) parseCheck(h *recHandler, msg *service.Message) {
 			Step: simrt.Step()})
 		return
 	}
-	_ = liveStr
-	_ = feStr
 }
 
 // stringOf renders a successfully parsed value as text (totality of String is part of C03).
